@@ -208,7 +208,7 @@ class OrderedPartition:
                 for el_1 in set2:
                     set1.add(el_1)
                 partition.pop(index + 1)
-                index = max(index - 1, 1)
+                index = max(index - 1, 0)
             else:
                 index += 1
 
